@@ -337,8 +337,25 @@ pub fn simulate_with<R: Ring>(
     c: &Circ,
     outcome: &dyn Fn(usize, &[u32], Option<u32>) -> bool,
 ) -> Result<Tens<R>, SimErr> {
+    simulate_opts(c, outcome, false)
+}
+
+/// State vector C|0..0> (all qubits initialised to |0>): a tensor without inputs.
+pub fn simulate_state<R: Ring>(c: &Circ) -> Result<Tens<R>, SimErr> {
+    simulate_opts(c, &|_, _, _| false, true)
+}
+
+fn simulate_opts<R: Ring>(
+    c: &Circ,
+    outcome: &dyn Fn(usize, &[u32], Option<u32>) -> bool,
+    zero_input: bool,
+) -> Result<Tens<R>, SimErr> {
     let anc = c.ancilla_qubits();
-    let inputs: Vec<usize> = (0..c.n).filter(|q| !anc.contains(q)).collect();
+    let inputs: Vec<usize> = if zero_input {
+        vec![]
+    } else {
+        (0..c.n).filter(|q| !anc.contains(q)).collect()
+    };
     let live: Vec<usize> = (0..c.n).collect();
     let cols = 1usize << inputs.len();
     let rows = 1usize << c.n;
